@@ -640,7 +640,11 @@ class ContactlessFrontend(object):
 
     def _card_connect(self, options, terminate):
         timeout = options.get('timeout', 1.0)
-        target = self.listen(options['target'], timeout)
+        try:
+            target = self.listen(options['target'], timeout)
+        except nfc.clf.CommunicationError as error:
+            log.debug(error)
+            return None
         if target and options['on-discover'](target):
             log.debug("activated as {0}".format(target))
             tag = nfc.tag.emulate(self, target)
